@@ -1,6 +1,9 @@
 /-
   C17 — every element-type specialisation computes the same function.
 
+  Regenerate:  (cd /verif/tools/gox && go run . -repo /repo -out /verif/lean/TensorModel/Generated)
+  Check:       (cd /verif/lean && lake build TensorModel.Props.C17)
+
   Everything here is re-checked whenever `tools/gox` regenerates `Generated/*.lean` from the Go
   sources.  Finite obligations are `decide +kernel` facts about the regenerated tables:
 
@@ -212,6 +215,11 @@ theorem arms_call_existing_kernels :
       (match d.2.arm c with
        | some a => (kernelCallees a).all (kernelExistsAt c)
        | none => true) = true := TM.Templates.arms_call_existing_kernels
+
+/-! ## diagnosis
+When an obligation above fails, `tools/gox/diagnose.lean` lists the offending Go functions and
+dispatcher arms (`Templates.nonconformingKernels / nonconformingArms`):
+`cd /verif/lean && lake build TensorModel.Generated.Kernels TensorModel.Generated.Dispatch && lake env lean ../tools/gox/diagnose.lean` -/
 
 /-! ## functions not brought under a template: none -/
 def unmatched : List String := []
